@@ -1194,6 +1194,17 @@ func (g *gen) genCred(n int) {
 		g.emit("STR db")
 		g.emit("DUMP da")
 		g.emit("DUMP db")
+		if g.chance(0.5) {
+			// the same two values re-used as decode targets for a CONNECT without credentials: what they still hold
+			// of the old credentials is all they differ in, so they must render alike
+			body := []byte{0, 4, 'M', 'Q', 'T', 'T', 5, byte(2 * g.r.Intn(2)), 0, byte(g.r.Intn(60)), 0, 0, 1, 'c'}
+			g.emit("DEC a %s", hx(body))
+			g.emit("DEC b %s", hx(body))
+			g.emit("STR a")
+			g.emit("STR b")
+			g.emit("DUMP a")
+			g.emit("DUMP b")
+		}
 	}
 }
 
@@ -1363,5 +1374,19 @@ func (g *gen) genRender(n int) {
 		g.emit("STR s")
 		g.emit("DUMP s")
 		g.emit("WF s")
+	}
+	// subscription identifiers far outside the MQTT range: every value an `int` argument can take is a packet value
+	// a program can hold (a negative argument is stored as a 64-bit unsigned number with the top bit set)
+	for _, v := range []string{"-1", "-2", "-128", "-4611686018427387904", "-9223372036854775808", "4611686018427387904",
+		"9223372036854775807", "268435456", "4294967296"} {
+		g.emit("RESET")
+		g.emit("NOTE case=render subid=%s", v)
+		g.emit("NEW s Subscribe")
+		g.emit("SET s AddFilters 61 1")
+		g.emit("SET s SetSubscriptionID %s", v)
+		g.emit("STR s")
+		g.emit("DUMP s")
+		g.emit("WF s")
+		g.emit("ENC s")
 	}
 }
